@@ -15,6 +15,7 @@ func init() {
 		c.Eval(1)
 		c.Count("tokens_checked", len(res.Tokens))
 		c.Count("cursor_positions_checked", res.Cursors)
+		c.Count("lexer_counter_disagreements_with_table", res.CounterDisagreements)
 		if res.Illegal {
 			c.Count("inputs_ending_in_illegal_token", 1)
 		}
